@@ -39,7 +39,7 @@ func c01Seq(tier string) []SeqJob {
 	mk := func(name string, hash string, keys []int, depth int, secs float64) {
 		var alpha []Op
 		for _, k := range keys {
-			alpha = append(alpha, Op{K: "set", Key: k, Cost: 1}, Op{K: "get", Key: k}, Op{K: "del", Key: k}, Op{K: "setttl", Key: k, Cost: 1, TTL: 1000})
+			alpha = append(alpha, Op{K: "set", Key: k, Cost: 1}, Op{K: "del", Key: k}, Op{K: "setttl", Key: k, Cost: 1, TTL: 1000})
 		}
 		alpha = append(alpha, Op{K: "advance", N: 2000}, Op{K: "sweep"}, Op{K: "drain"})
 		spec := &SeqSpec{Cfg: Cfg{NumCounters: 16, MaxCost: 3, BufferItems: 2, SetBuf: 3, KeyHash: hash, TTLTick: 2, BucketSecs: 1}, MaxDepth: depth,
@@ -60,7 +60,7 @@ func c01Seq(tier string) []SeqJob {
 	}
 	if tier == "quick" {
 		mk("seq/collide/keys1,2/depth6", "collide", []int{1, 2}, 6, 40)
-		mk("seq/collide/keys1,2,3/depth5", "collide", []int{1, 2, 3}, 5, 40)
+		mk("seq/collide/keys1,2,3/depth4", "collide", []int{1, 2, 3}, 4, 40)
 	} else {
 		mk("seq/collide/keys1,2/depth9", "collide", []int{1, 2}, 9, 560)
 		mk("seq/collide/keys1,2,3/depth7", "collide", []int{1, 2, 3}, 7, 560)
